@@ -3,6 +3,7 @@ package main
 // C13: one registry with k links; identity, routing and isolation.
 
 import (
+	"sync/atomic"
 	"context"
 	"fmt"
 	"io"
@@ -114,6 +115,25 @@ func c13Workload[T any](rep *Report, codec Codec[T], k int, rng *rand.Rand, fail
 		parts := strings.SplitN(r.val.(string), "|", 2)
 		if parts[0] != "H" || parts[1] != s.hubID {
 			rep.addViolation("property", key+":identity", fmt.Sprintf("the hub's handler for a call from %s read remote id %q from its context; that link is enumerated and was announced as %q", name, parts[1], s.hubID), desc)
+		}
+	}
+	// closure invocations stay on their link: every peer, one after the other, passes a closure to the hub; the
+	// hub's handler invokes it — that invocation must reach THAT peer (and run that peer's function)
+	for i, s := range spokes {
+		name := fmt.Sprintf("P%d", i)
+		pr, _, _ := s.peer.AnyRemote()
+		var ran int64
+		r := withWatchdog(func() (any, error) {
+			return pr.WithClosure(context.Background(), 2, false, func(ctx context.Context, k int, str string) (string, error) {
+				atomic.AddInt64(&ran, 1)
+				return name + ":" + str, nil
+			})
+		})
+		want := []string{name + ":H-arg-0", name + ":H-arg-1"}
+		got, _ := r.val.([]string)
+		if !r.ok || r.err != nil || len(got) != 2 || got[0] != want[0] || got[1] != want[1] || ran != 2 {
+			rep.addViolation("property", key+":closure-routing", fmt.Sprintf("peer %s passed a closure to the hub (the %d-th link to do so), the hub's handler invoked it twice: the handler got %v (err %v), %s's function ran %d time(s); want %v", name, i+1, r.val, r.err, name, ran, want), desc)
+			break
 		}
 	}
 	// traffic on all links + one link fails at a random moment
